@@ -344,6 +344,39 @@ pub fn classify(s: &str) -> Class {
             last_small = Some(u);
         }
     }
+    // a plain digit run directly after a unit that has more digits than fit under that unit (十555, 千5000,
+    // 一万50000): the run reaches the magnitude of the unit in front of it, so the units are out of order whatever the reading.
+    // Runs that begin with a zero are not judged.
+    {
+        let mut cap: Option<u32> = None;
+        let mut run = 0u32;
+        let mut judged = false;
+        for (i, c) in cs.iter().enumerate() {
+            if let Some(u) = small_unit(*c) {
+                cap = Some(u);
+                run = 0;
+            } else if let Some(u) = large_unit(*c) {
+                // only a large unit multiplied by ONE non-zero digit (一万, 5億) is judged: after 十万 a run of five
+                // digits still lies below the section (十万11230 = 111230 is a consistent sum)
+                let single = i >= 1 && digit_value(cs[i - 1]).map(|d| d != 0).unwrap_or(false) && (i == 1 || large_unit(cs[i - 2]).is_some());
+                cap = if single { Some(u) } else { None };
+                run = 0;
+            } else if let Some(d) = digit_value(*c) {
+                if run == 0 {
+                    judged = d != 0;
+                }
+                run += 1;
+                if let Some(k) = cap {
+                    if judged && run > k {
+                        return Class::Malformed("more digits after a unit than fit under it");
+                    }
+                }
+            } else {
+                cap = None;
+                run = 0;
+            }
+        }
+    }
     // points: at most one per section, digits on both sides (checked above for the right side)
     {
         let mut seen = false;
